@@ -21,7 +21,7 @@ from vlib import ctl, engine
 
 PROPERTY = "C15"
 LEVEL = "exploration"
-RULE = ("generated signatures over positional / defaulted / *args / keyword-only / **kwargs / JobInfo-defaulted "
+RULE = ("generated signatures over positional / positional-only / defaulted / *args / keyword-only / **kwargs / JobInfo-defaulted "
         "parameters with config_args over any subset (incl. the variadic); per signature 4-10 base calls, each with "
         "must-equal variants (keyword order, config values, JobInfo placeholder, default passed by keyword) and "
         "must-differ variants (one bound non-config value changed, variadic element added/removed, task body).  "
@@ -43,13 +43,17 @@ def gen_sig(rnd):
     info = rnd.choice([None, None, "pos", "kw"])
     names = [p for p, _ in pos] + (["rest"] if has_rest else []) + [k for k, _ in kwonly]
     cfg = sorted(rnd.sample(names, rnd.randint(0, min(2, len(names))))) if names and rnd.random() < 0.7 else []
-    return {"pos": pos, "rest": has_rest, "kwonly": kwonly, "extra": has_extra, "info": info, "config": cfg}
+    npo = rnd.randint(0, npos) if rnd.random() < 0.35 else 0
+    return {"pos": pos, "rest": has_rest, "kwonly": kwonly, "extra": has_extra, "info": info, "config": cfg,
+            "posonly": npo}
 
 
 def render(sig, body="0"):
     parts = []
     for i, (p, d) in enumerate(sig["pos"]):
         parts.append("%s=%d" % (p, 100 + i) if d else p)
+        if sig.get("posonly") and i + 1 == sig["posonly"]:
+            parts.append("/")
     if sig["info"] == "pos":
         parts.append("info=JobInfo()")
     if sig["rest"]:
@@ -81,6 +85,7 @@ def gen_call(rnd, sig):
     pos = sig["pos"]
     required = sum(1 for _, d in pos if not d)
     npos = rnd.randint(required, len(pos)) if not (pos and rnd.random() < 0.3) else required
+    npos = max(npos, sig.get("posonly", 0))   # positional-only parameters cannot be passed by keyword
     args = [rnd.randint(0, 9) for _ in range(npos)]
     kwargs = {}
     # positional params not covered positionally may be passed by keyword
